@@ -10,7 +10,12 @@ RULE = ("seeded scenarios of 1-3 producers (unique values), 1-4 consumers (singl
         "close-and-drain actor on one Queue; each scenario is run fault-free and then once per "
         "(participant, kind in cancel/interrupt/close, kernel event). Non-trivial = some "
         "receiver had to block or a fault was observed by its victim; distinct = distinct "
-        "sequence of (actor, queue event, value) plus fault position.")
+        "sequence of (actor, queue event, value) plus fault position."
+        " A fifth of the scenarios are `mixed` programs (usimdst/mixed.py): two locks, a "
+        "queue, a channel and a capacity supply used by the same activities in nested "
+        "blocks. After the single-fault sweep, seeded pairs of cancels and seeded fault "
+        "sequences of mixed kinds (2-3 victims, each with its own kind) are run as well; "
+        "a tenth of the budget runs under python -O.")
 BUDGET = {"quick": {"cases": 400, "wall_s": 240, "chunk": 2, "per_group": 25},
           "thorough": {"cases": 4000, "wall_s": 1500, "chunk": 5, "per_group": 400}}
 ASSUMPTIONS = ["the value of a put that was itself torn down before returning may be delivered "
